@@ -7,43 +7,43 @@ HERE = os.path.dirname(os.path.abspath(__file__))
 CLAIMED = {
     "C15": {
         "design_ref": "DESIGN.md 4.1",
-        "technique": "deterministic simulation: baton-scheduled real threads with pre-emption at every source line / function return / bytecode instruction of config.py, simulated thread identifiers (reuse), environment flips, crowds of 40-100 threads; every read checked against a reference model; seeded schedule search (uniform, sticky, PCT, race-directed) plus systematic single-insertion sweeps; replay + minimisation",
+        "technique": "deterministic simulation: baton-scheduled real threads with pre-emption at every source line / function return / bytecode instruction of config.py, simulated thread identifiers (reuse), environment flips, crowds of 64-100 threads, threads unknown to the threading module, stale Thread handles released late, strict-warnings worlds, library operations (runner construction / evaluation) between configuration operations, attempts rejected because of a key or a value; every read checked against a reference model; seeded schedule search (uniform, sticky, PCT, race-directed) plus systematic single-insertion sweeps; replay + minimisation",
         "text": "Seeded search over thread schedules (uniform/sticky/PCT) x operation programs x environment flips x identifier reuse, each read compared with a reference model of scoped thread-local overrides; sampling, not proof - a clean batch is evidence that no shallow ordering or leftover-state bug exists at line granularity.",
-        "note": "Pre-emption only between source lines of sqllineage/config.py (bytecode-level races inside one line and inside dict operations are assumed atomic, as under the GIL); override values stay in the documented domain; trusted: the reference model in sim/props/c15.py, the scheduler in sim/sched.py.",
+        "note": "Pre-emption at source lines / function returns (2/3 of the runs) or bytecode instructions (1/3) of sqllineage/config.py; C-implemented dict/set operations are atomic, as under the GIL; accepted override values stay in the documented domain (un-coercible values only as attempts that must be rejected); trusted: the reference model in sim/props/c15.py, the scheduler, SimLock and ThreadingShim in sim/sched.py.",
     },
     "C12": {
         "design_ref": "DESIGN.md 4.2",
-        "technique": "deterministic simulation with fault injection: baton-scheduled caller threads analysing script sequences (generated, dialect-specific, corpus, templated with per-project sqlfluff config) with reused providers; faults = bad statement at position k, provider failure on the j-th lookup, exception out of a tap or at a source line of _eval; oracle = isolated reference in a fresh fork + provider hygiene probe; seeded search + full fault sweep over a fixed workload + single-insertion sweeps",
+        "technique": "deterministic simulation with fault injection: baton-scheduled caller threads analysing script sequences (generated, dialect-specific, corpus, templated with per-project sqlfluff config) with reused providers; faults = bad statement at position k, provider failure on the j-th lookup, exception out of a tap or at a source line of _eval; world classes = T-SQL split mode, dialect zoo, project configurations, same text under T-SQL split mode and another dialect, statements beyond the splitter's guards, warnings-as-errors with scalar sub-queries; locks created by sqllineage code are scheduling points (SimLock); oracle = isolated reference in a fresh fork + provider hygiene probe; seeded search + full fault sweep over a fixed workload + single-insertion sweeps",
         "text": "Seeded search over run histories x thread schedules x fault points, plus a complete sweep of every failure point (statement position, lookup index, statement boundary) over a fixed 8-script workload; every unfaulted analysis must equal the same analysis alone in a fresh process and every provider must answer like a fresh one whenever it is quiescent. Sampling of histories and schedules; the fault-point sweep is complete only for the fixed workload.",
         "note": "Dependencies (sqlfluff/sqlparse/networkx) are atomic w.r.t. pre-emption; crash points are collaborator call-outs and taps, not arbitrary bytecodes; a wrong-but-stable answer is invisible (reference = same code alone); trusted: sim/props/c12.py, sim/sched.py, the guarded taps in /repo.",
     },
     "C11": {
         "design_ref": "DESIGN.md 4.3",
-        "technique": "deterministic simulation over the hash-seed / process / process-history / call-order seams: every input observed in fresh forks of zygotes started with different PYTHONHASHSEED under seeded accessor-call permutations with repetitions, and in a warm process that analysed sibling scripts first; cross-world comparison of canonical dumps",
+        "technique": "deterministic simulation over the hash-seed / process / process-history / call-order seams: every input observed in fresh forks of zygotes started with different PYTHONHASHSEED under seeded accessor-call permutations with repetitions, and in a warm process that analysed sibling scripts - or the byte-identical text under another dialect, T-SQL split mode or project configuration - first; cross-world comparison of canonical dumps",
         "text": "Every corpus, TPC-DS and generated input is analysed in 4 (quick) / 32 (thorough) interpreters with different string-hash seeds, twice each in fresh forks with different accessor programs; all canonical answers must agree. Sampling over inputs and seeds: a seed-dependent choice that needs a rarer hash collision pattern than the sampled seeds produce is missed.",
         "note": "Canonical dump treats the cytoscape export as an unordered collection of elements (positional edge ids dropped) and rewrites subquery_<int>; exceptions compared by type; trusted: sim/canon.py, sim/props/c11.py.",
     },
     "C03": {
         "design_ref": "DESIGN.md 4.4",
-        "technique": "history-vs-reference-model simulation: seeded operation histories (rw / drop / rename, verbatim repeats, shared holder objects) applied operation by operation to the real accumulator (holder API and rendered SQL through LineageRunner with statement tap) and to a partial reference model (set of allowed states); reorder / duplicate delivery and hash-seed variation; plus a shared-runner world (two baton-scheduled callers on one runner, random schedules and systematic single-insertion sweeps)",
+        "technique": "history-vs-reference-model simulation: seeded operation histories (rw / drop / rename, verbatim repeats, shared holder objects) applied operation by operation to the real accumulator (holder API and rendered SQL through LineageRunner with statement tap - incl. column-bearing renderings with and without a metadata provider, stray qualifiers and directory datasets) and to a partial reference model (set of allowed states); reorder / duplicate delivery and hash-seed variation; plus a shared-runner world (two baton-scheduled callers on one runner, random schedules and systematic single-insertion sweeps)",
         "text": "Seeded sampling of statement histories (length <= 6, 3-4 tables), each prefix compared with a partial reference model that constrains exactly what the statement constrains; order/duplication clause checked by permuted and repeated delivery; every history runs under one of 8 hash seeds. Not the exhaustive enumeration the quantifier mentions (that would be model checking): coverage is reported as distinct histories and model states reached.",
         "note": "History clause only - there is no I/O, clock or thread in the fold, said plainly in DESIGN.md; RENAME outside the determined zone is checked for weak invariants only; exceptions in the loose zone are not judged; trusted: the model in sim/props/c03.py.",
     },
     "C04": {
         "design_ref": "DESIGN.md 4.5",
-        "technique": "history-vs-reference-model simulation of the runner <-> provider-session protocol: seeded statement chains, per-statement facts and session traffic observed through guarded taps, composition oracle over the recorded history; hash-seed variation as the only fault dimension",
+        "technique": "history-vs-reference-model simulation of the runner <-> provider-session protocol: seeded statement chains plus fixed shapes (re-creation between verbatim repeated readers, re-writes through permuted column lists, self-rewrites, scalar sub-queries analysed by a nested runner), per-statement facts and session traffic observed through guarded taps, composition oracle over the recorded history; hash-seed variation as the only fault dimension",
         "text": "Seeded sampling of 2-5 statement chains x provider in {none, SimProvider, Dummy} x both analyzers; the script's column paths must equal the composition of the per-statement pairs the taps reported, the session must follow a register/lookup/deregister model statement by statement, wildcard expansion from session metadata must be exact, and attribution never leaves a statement's candidate set. Shapes the property does not determine (unresolved columns with 0 or >=2 defining candidates, cyclic column graphs, re-definition of a table) are skipped and counted.",
         "note": "History clause + collaborator only (deterministic in script and metadata, said plainly in DESIGN.md); per-statement pairs are taken from the library's own statement holders through the tap, so a defect inside ONE statement's analysis is invisible here (that is C02, not claimed); trusted: sim/props/c04.py, sim/gen_sql.py.",
     },
     "C14": {
         "design_ref": "DESIGN.md 4.6",
-        "technique": "deterministic simulation over the import-time / environment / thread seams: zygotes imported with or without SQLLINEAGE_DEFAULT_SCHEMA, baton-scheduled threads analysing under different scoped defaults with line-level pre-emption in config.py and core/models.py, operator environment flips, per-thread histories S1 -> S2 -> none; reference = qualified rendering in a clean process",
+        "technique": "deterministic simulation over the import-time / environment / thread seams: zygotes imported with or without SQLLINEAGE_DEFAULT_SCHEMA, baton-scheduled threads analysing under different scoped defaults with line-level pre-emption in config.py and core/models.py, operator environment flips, several threads under the environment mechanism after a change, several analyses inside one scoped block, threads unknown to the threading module, per-thread histories S1 -> S2 -> none; workload = fixed templates + dialect zoo (every ansi-written template under 26 further dialects) + corpus; reference = qualified rendering in a clean process",
         "text": "A fixed template set covering every Table construction site is analysed under every process lifetime x mechanism (complete sweep, single thread) and under seeded thread schedules / histories / environment flips (sampling); each analysis must equal the S-qualified rendering analysed with no default in a clean process. The input dimension (programs) is deliberately not searched.",
-        "note": "Fixed committed templates (sim/templates_c14.py); qualifier-fallback site excluded (invalid SQL); environment flips only while analyses run under scoped overrides; trusted: sim/props/c14.py, sim/canon.py.",
+        "note": "Fixed committed templates and dialect zoo (sim/templates_c14.py; template x dialect pairs that do not parse are counted and skipped); qualifier-fallback site excluded (invalid SQL); environment flips only while analyses run under scoped overrides; trusted: sim/props/c14.py, sim/canon.py, ThreadingShim in sim/sched.py.",
     },
     "C17": {
         "design_ref": "DESIGN.md 4.7",
-        "technique": "deterministic simulation with I/O fault injection: the WSGI app driven in-process over a scratch directory tree with unique content/name markers; seeded request histories with root moves, chdir, tree mutations, DIRECTORY flips between requests, OSError at the n-th open/exists/is_dir/iterdir, and (threaded class) two clients + a root-move actor under the baton scheduler with line-level pre-emption in drawing.py; one-directional disclosure oracle",
+        "technique": "deterministic simulation with I/O fault injection: the WSGI app driven in-process over a scratch directory tree with unique content/name markers; seeded request histories (path spellings incl. detours, literal ~ / $VAR / %-escaped spellings with HOME as a seam, route spelling variants, one or both path parameters, payload shape variants) with root moves, chdir, tree mutations, DIRECTORY flips between requests, OSError at the n-th open/exists/is_dir/iterdir, and (threaded class) two clients + a root-move actor under the baton scheduler with line-level pre-emption in drawing.py; one-directional disclosure oracle judged from the response (markers, served content, listed directory)",
         "text": "Seeded sampling of request histories x path spellings x administrative operations x I/O faults (x schedules in the threaded class); no response may contain a marker living outside the root in force and a lexically outside path never gets 200. Not the exhaustive enumeration of <=5-segment spellings the quantifier describes (that would be bounded model checking); coverage is reported as distinct histories and (route, class, status) tuples reached.",
         "note": "Lexical model (symlinks out of scope, as stated); chdir / tree mutations only between requests; wsgiref socket layer not exercised; an escaping exception counts as refusal; trusted: the marker oracle and path model in sim/props/c17.py.",
     },
